@@ -275,7 +275,7 @@ pub fn check_run(
                     run += 1;
                     st.max_completes_between_polls = st.max_completes_between_polls.max(run);
                 }
-                Act::Poll => run = 0,
+                Act::Poll | Act::PollDropping(..) => run = 0,
                 _ => {}
             }
         }
